@@ -15,6 +15,7 @@ def actOfJson (j : Json) : Option Act :=
     | [.str "add", e] => (natOf e).map .add
     | [.str "del", e] => (natOf e).map .del
     | [.str "cvt"] => some .createVT
+    | [.str "read"] => some .read
     | [.str "vins", r] => (natOf r).map .vins
     | [.str "vdel", r] => (natOf r).map .vdel
     | [.str "vupd", x, y] => do pure (.vupd (← natOf x) (← natOf y))
